@@ -322,7 +322,7 @@ Proof.
   cont_case k d T Hin.
 Qed.
 
-Lemma whole_instances : clause_instances ob = true.
+Lemma whole_instances : clause_instances op ob = true.
 Proof.
   rewrite ob_eq. unfold clause_instances. simpl. unfold probes_of. rewrite forallb_flat_map.
   apply forallb_forall. intros [k d] Hin. simpl. destruct (td_type d) eqn:T; simpl; try reflexivity.
@@ -334,7 +334,7 @@ Proof.
   rewrite ob_eq. unfold clause_readonly. simpl. unfold probes_of. rewrite forallb_flat_map.
   apply forallb_forall. intros [k d] Hin. simpl. destruct (td_type d) eqn:T; simpl; try reflexivity.
   - cont_case k d T Hin.
-  - rewrite (vget_read_all_in c orig_atom s0 k d Hin). rewrite (cget_of op c s0 n0 W k d Hin).
+  - rewrite (cget_of op c s0 n0 W k d Hin). rewrite (vget_read_all_in c orig_atom s0 k d Hin).
     unfold read at 1. destruct (vget s0 k) as [v|] eqn:G0; [|rewrite (cget_of op c s0 n0 W k d Hin), T; reflexivity].
     destruct (td_transient d) eqn:Tr; [reflexivity|]. simpl.
     pose proof (copy_stored op c s0 n0 W k d Hin) as S. rewrite G0, Tr in S. destruct S as [w [A _]]. fold cv in A.
